@@ -30,6 +30,8 @@ def _one(arg):
         w, res, fired, info = run_fault(sc, index, variant)
     except ExecTimeout as exc:
         return [('hang', f'fault {variant} at call #{index} [{label}]: {exc}')], 'hang'
+    except RuntimeError as exc:
+        return [('setup-failed', str(exc))], 'setup-failed'
     outcome = 'returned' if res.exc is None else type(res.exc).__name__
     try:
         if fired is None:
@@ -104,8 +106,8 @@ def _one(arg):
 def _count(sc):
     try:
         return count_faultable(sc)
-    except ExecTimeout:
-        return []
+    except (ExecTimeout, RuntimeError):
+        return ['<setup or dry run failed>']
 
 
 def run(tier, report):
